@@ -35,7 +35,8 @@ def build(U):
     sp.keep_methods(['new_unchecked', 'new_full', 'new', 'start', 'end', 'start_pos', 'end_pos', 'split', 'get_input', 'as_str'])
     sp.rw('R7', 'debug_assert!(input.get(start..end).is_some());\n', '')
     sp.rw('R2', 'pub(crate) unsafe fn new_unchecked', 'pub unsafe fn new_unchecked')
-    sp.rw('R2', 'position::Position', 'Position', count=8)
+    sp.text, k_pp = re.subn(r'\bposition::Position\b', 'Position', sp.text)
+    sp.log.append(('R2', 'path prefix position::Position -> Position  x%d' % k_pp))
     sp.rw_slices()
     sp.ret('r', fname='new_unchecked')
     sp.contract('''        requires start <= end, end <= input.spec_bytes().len(), is_char_boundary(input.spec_bytes(), start as int), is_char_boundary(input.spec_bytes(), end as int),
